@@ -53,6 +53,7 @@ ParamName(k) == IF k = ":p:" THEN "p" ELSE "q"
 
 Cands ==
     (IF want = "val" THEN {[k |-> "val", v |-> c] : c \in Consts} ELSE {})
+    \cup (IF want = "allopts" THEN {[k |-> "allopts"]} ELSE {})
     \cup (IF want = "opt"
           THEN {[k |-> "opt", p |-> p, d |-> d, dom |-> dm] :
                     p \in Paths, d \in OptFree,
@@ -122,7 +123,7 @@ Cands ==
 
 \* child slots as a sequence (0 = empty slot)
 ChildSlots(nd) ==
-    CASE nd.k = "val" -> <<>>
+    CASE nd.k \in {"val", "allopts"} -> <<>>
       [] nd.k = "opt" -> <<nd.d, nd.dom>>
       [] nd.k = "pred" -> <<nd.arg>>
       [] nd.k = "tmpl" -> [i \in 1 .. Len(nd.ps) |-> nd.ps[i].n]
@@ -234,8 +235,8 @@ ExplainFailsOnlyInsufficient == AllObs(ExplainFailsOnlyInsufficientAt)
 (* Universes of the families (cfg files substitute these for the constants) *)
 pA == <<"A">>  pB == <<"B">>  pC == <<"C">>  pSX == <<"S", "X">>  pSY == <<"S", "Y">>  pL1 == <<"L", "1">>
 NoRaises == {}
-SK_all == {"val", "opt", "pred", "tmpl", "apply", "bind", "switch", "case", "coalesce", "coll", "map", "with", "cached", "ds", "fnapp"}
-SK_leafish == {"opt", "val", "pred", "fnapp", "tmpl"}
+SK_all == {"val", "allopts", "opt", "pred", "tmpl", "apply", "bind", "switch", "case", "coalesce", "coll", "map", "with", "cached", "ds", "fnapp"}
+SK_leafish == {"opt", "val", "pred", "fnapp", "tmpl", "allopts"}
 SK_val == {"val"}  SK_opt == {"opt"}  SK_pred == {"pred"}  SK_tmpl == {"tmpl"}  SK_apply == {"apply"}  SK_bind == {"bind"}
 SK_switch == {"switch"}  SK_case == {"case"}  SK_coalesce == {"coalesce"}  SK_coll == {"coll"}  SK_map == {"map"}
 SK_with == {"with"}  SK_dsof == {"dsof"}  SK_wrap == {"with", "ds", "dsof"}  SK_cached == {"cached"}  SK_ds == {"ds"}  SK_fnapp == {"fnapp"}
@@ -260,7 +261,7 @@ FO_Leaves == <<[p |-> pA, vals |-> {I(0), I(1), Bv(FALSE), Nv, Sv(<<>>), Str("x"
                [p |-> <<"Z">>, vals |-> {I(7)}, extra |-> TRUE]>>
 
 \* family "combinators" (C05, C06, C03, C10, C11): every combinator over options / constants / bodies
-FC_Kinds == {"val", "opt", "pred", "apply", "bind", "switch", "case", "coalesce", "coll", "map", "fnapp"}
+FC_Kinds == {"val", "opt", "allopts", "pred", "apply", "bind", "switch", "case", "coalesce", "coll", "map", "fnapp"}
 FC_Paths == {pA, pB}
 FC_Consts == {I(1), Str("x"), Lv(<<I(0), I(1)>>)}
 FC_Fns == {"g"}
